@@ -77,6 +77,8 @@ static void c04_run(void) {
 	g.min_clients = 2; g.max_clients = 5; g.min_ops = 3; g.max_ops = (RC.cfg & CFG_THOROUGH) ? 12 : 8;
 	g.nest_pct = 10;
 	if (g_chance(1, 4)) { g.max_queues = 2; g.single_queue = 0; }   // second concurrent queue, possibly targeting the first
+	// a quarter of the runs: the queue is suspended and resumed while readers are in flight and barriers pending
+	if (g_chance(1, 4)) { g.opmask |= (1u << OP_SUSPEND) | (1u << OP_PAUSE); g.oracles |= O_SUSPEND; g.nest_pct = 30; }
 	qprog_run(&g);
 }
 const prop_def prop_C04 = { "C04", NULL, c04_run, qprog_counter_names,
@@ -103,7 +105,7 @@ const prop_def prop_C05 = { "C05", NULL, c05_run, qprog_counter_names,
 /* ---- C06: inactive and suspended queues ---- */
 static void c06_run(void) {
 	qgen g; qgen_defaults(&g);
-	g.oracles = O_SUSPEND | O_ONCE | O_SERIAL;
+	g.oracles = O_SUSPEND | O_ONCE | O_SERIAL | O_BARRIER;
 	g.opmask |= (1u << OP_SUSPEND) | (1u << OP_PAUSE);
 	g.qkindmask = (1u << QK_SERIAL) | (1u << QK_CONC);
 	g.min_queues = 1; g.max_queues = 3; g.inactive_pct = 30;
